@@ -347,9 +347,16 @@ func (j c28judge) judge(view string, c, s sshnego.KexInit, got *ssh.NegotiatedAl
 func TestC28(t *testing.T) {
 	m := mon.New(t, "C28")
 	defer m.Done()
-	m.Rule("hook stream: a case is a (client KEXINIT, server KEXINIT) pair of 8 name-lists each, built per category by a named construction (identical, reversed order with >=2 common names, exactly one common name at random positions, duplicates, overlapping random sublists of known+unknown+pseudo+empty names, disjoint, empty client/server/both lists) with client-to-server and server-to-client lists drawn independently; scenario forces either all categories to overlap, exactly one category to have no common name, AEAD in exactly one direction with disjoint MAC lists in that direction, or leaves all to chance. Both VerifFindAgreedAlgorithms(true,…) and (false,…) are evaluated and compared with each other (symmetry) and with the RFC 4253 §7.1 transcription ref/sshnego. distinct = (scenario, per-category construction of kex/cipher-cs/mac-cs, outcome). live stream: real client and real server handshakes over an in-memory connection with random Config lists; both KEXINIT payloads are tapped and parsed by the harness, the reference is applied to what was on the wire and compared with both sides' Algorithms() or with both sides failing with AlgorithmNegotiationError.")
+	m.Rule("hook stream: a case is a (client KEXINIT, server KEXINIT) pair of 8 name-lists each, built per category by a named construction (identical, reversed order with >=2 common names, exactly one common name at random positions, duplicates, overlapping random sublists of known+unknown+pseudo+empty names, disjoint, empty client/server/both lists) with client-to-server and server-to-client lists drawn independently; scenario forces either all categories to overlap, exactly one category to have no common name, AEAD in exactly one direction with disjoint MAC lists in that direction, or leaves all to chance. Both VerifFindAgreedAlgorithms(true,…) and (false,…) are evaluated and compared with each other (symmetry) and with the RFC 4253 §7.1 transcription ref/sshnego. distinct = (scenario, per-category construction of kex/cipher-cs/mac-cs, outcome). live stream: real client and real server handshakes over an in-memory connection with random Config lists; both KEXINIT payloads are tapped and parsed by the harness, the reference is applied to what was on the wire and compared with both sides' Algorithms() or with both sides failing with AlgorithmNegotiationError. wire stream: the harness is a byte-level SSH peer (version line, unencrypted binary packets) in client and in server role; its KEXINIT is RFC 4253 §7.1 bytes from the independent encoder ref/sshnego with different cipher, MAC and compression lists per direction (scenarios: directions differ, compression/MAC/kex/host key without common name in one direction, AEAD in one direction, chance); the library unmarshals it itself, the harness completes curve25519-sha256 by hand (reference ladder, reference exchange hash, crypto/ed25519 signature) until the library installs algorithms (VerifTap.KeyChange) and compares them per direction with the model applied to the two KEXINIT byte strings; the library's own KEXINIT is read off the byte stream, decoded by the independent decoder and every one of the 10 slots compared with the Config; self-check counters record for each of the 44 observable slot pairs how many cases would change verdict if the library read those two slots swapped. conc stream: 6 goroutines evaluate findAgreedAlgorithms (both views) on the same 48 shared KEXINIT pairs and chooseDH on 8 requests at once (barrier start, a GOMAXPROCS(1) pass every 4th round), results compared after the join with single-threaded results; also run under the race detector (variant verif,race; interleavings are scheduler-chosen).")
 	m.Assume("ref/sshnego transcribes RFC 4253 §7.1 for signature-only kex methods (own unit test); AEAD cipher set {aes128-gcm,aes256-gcm,chacha20-poly1305}@openssh.com per OpenSSH PROTOCOL, cross-checked against VerifIsAEAD for every name")
 	m.Assume("where the §7.1 winner of a category is an empty name or a kex pseudo-name (ext-info-*, kex-strict-*) every reading is accepted (select it, skip it, or fail); with an AEAD cipher the reported MAC may be empty or the §7.1 name")
+
+	if mon.RaceBuild {
+		// -race costs 5-15x: this variant runs the shared-value stream only
+		c28ConcStream(m)
+		return
+	}
+	c28ConcStream(m)
 
 	u := universe()
 	for _, n := range u.cipher {
@@ -511,6 +518,10 @@ func TestC28(t *testing.T) {
 
 	live := m.N(240, 6000)
 	m.Cases("live", live, func(i int64, r *rand.Rand) { c28Live(m, j, i, r) })
+
+	wire := m.N(400, 10000)
+	m.Cases("wire", wire, func(i int64, r *rand.Rand) { c28Wire(m, i, r) })
+	wireGates(m, wire)
 
 	// gate minimums hold for any seed: scenario = i%5, so 1/5 of the hook cases
 	// is of each forced kind
